@@ -205,7 +205,8 @@ def rules(ck, P):
                     ir.contains(n["init"]["body"], lambda y: y.get("k") == "mcall" and y.get("name") == "simple_query"):
                 wrappers.add(n["pat"]["hid"])
         queries = []   # (target var, aggregate, where)
-        for n in ir.walk_nodes(b["body"]):
+        conditional = []
+        for n, parents, _ in ir.walk(b["body"]):
             tgt = None
             val = None
             if n.get("k") == "let" and n["pat"].get("k") == "bind" and "init" in n:
@@ -222,10 +223,18 @@ def rules(ck, P):
                 fl = fmt_literal(calls[0]["a"][1])
                 where = expand(fl[0]) if fl else (ir.const_eval_str(calls[0]["a"][1]) or "")
                 queries.append((tgt, agg, where))
+                inloop = False
+                for p_ in parents:
+                    if p_.get("k") == "for":
+                        inloop = True
+                    elif inloop and p_.get("k") in ("if", "match", "while", "loop"):
+                        conditional.append("%s <- %s WHERE %s (under `%s` at %s)" % (tgt, agg, where, p_["k"], ir.loc(p_)))
         ck.anchor("R-COVER-MB", "simple_query uses", queries, 8)
         level = [q for q in queries if q[1] and "tile_" in q[1]]
         ck.check(all("zoom_level = {z}" in q[2] for q in level), "R-COVER-MB", b["q"] + "|level", "every column/row query is restricted to zoom_level = {z}",
                  "a query is not restricted to the level: %s" % [q for q in level if "zoom_level = {z}" not in q[2]], ir.loc(b))
+        ck.check(not conditional, "R-COVER-MB", b["q"] + "|unconditional", "every estimate and refinement query of a level runs unconditionally once the level is known to hold tiles",
+                 "a coverage query runs only under a condition, so a bound can keep its three-column estimate: %s" % conditional[:2], ir.loc(b))
         by_t = {}
         for t, a, w in queries:
             by_t.setdefault(t, []).append((a, w))
